@@ -86,23 +86,23 @@ func (r *Result) Count(k string, n int) {
 }
 
 type Checker struct {
-	ID        string
-	Level     string // exploration | fault_enumeration
-	Engine    string // A | B
-	Rule      string // how cases are generated and what makes one non-trivial/distinct
-	Assume    []string
-	Real      []string // components that ran real code
-	Stubs     []string
-	NumCases  func(ctx *Ctx) int
-	Gen       func(ctx *Ctx, i int) *Input
-	Exec      func(ctx *Ctx, in *Input) *Result
-	Shrink    func(ctx *Ctx, in *Input, v *Violation) []*Input // candidate simplifications, simplest first
+	ID       string
+	Level    string // exploration | fault_enumeration
+	Engine   string // A | B
+	Rule     string // how cases are generated and what makes one non-trivial/distinct
+	Assume   []string
+	Real     []string // components that ran real code
+	Stubs    []string
+	NumCases func(ctx *Ctx) int
+	Gen      func(ctx *Ctx, i int) *Input
+	Exec     func(ctx *Ctx, in *Input) *Result
+	Shrink   func(ctx *Ctx, in *Input, v *Violation) []*Input // candidate simplifications, simplest first
 	// ProcessStateIsEvidence: a violation that shows in a worker (which has run other cases before) but not when the same
 	// case is replayed in a fresh process is itself what the property forbids (C14: "in the same or in different
 	// processes"): state carried from one generation to the next. It is then reported, flagged not exactly replayable.
 	ProcessStateIsEvidence bool
-	Probes    []string                                         // counters that must be non-zero (rare-condition probes); zero => warning
-	FaultKeys []string                                         // counters that are fault kinds
+	Probes                 []string // counters that must be non-zero (rare-condition probes); zero => warning
+	FaultKeys              []string // counters that are fault kinds
 }
 
 var Registry = map[string]*Checker{}
